@@ -66,8 +66,8 @@ def in_domain(s):
     return True
 
 
-CHARGE_RE = re.compile(r'^([+-])(?:[ \t\n\r\x0b\x0c]*([0-9]+(?:_[0-9]+)*)[ \t\n\r\x0b\x0c]*)?$')
-CHARGE_ALPHABET = "+-0123456789 _x.\t"
+CHARGE_RE = re.compile(r'^([+-])(?:[ \t\n\r\x0b\x0c]*([0-9]+(?:_[0-9]+)*)[ \t\n\r\x0b\x0c]*)?\Z')
+CHARGE_ALPHABET = "+-0123456789 _x.\t\n"
 CHARGE_SEEDS = ['+', '-', '+3', '-2', '+12', '3+2', '2-1', '3+', '3-', '3', '', 'x', '+x', '+-', '-+', '+-3', '++3', '--', '+ 3', '+3 ', '-1_0',
                 '+1__0', '+_1', '-1_', '+ ', '1+2-', '+1 0', '12+34', 'a+b', '+0', '-007', '+3.0', '.+', '+\t2\n']
 
@@ -324,7 +324,9 @@ def comp_same(impl_text, model_text, tol):
     if [x[0] for x in a] != [x[0] for x in b]:      # same keys in the same (insertion) order
         return False
     for (k, va, fl), (_, vb, _) in zip(a, b):
-        if fl or abs(va) >= 2 ** 53:
+        if fl or abs(va) >= 2 ** 53 or vb.denominator != 1:
+            # a Python float, a huge int, or an int obtained by `n == int(n)` from a float product whose exact value is not an
+            # integer (0.999999999999 * 1.000000000001 rounds to 1.0): relative tolerance; integer-valued amounts: exactly
             if not close(float(va), vb, tol, 0.0):
                 return False
         elif va != vb:
@@ -475,7 +477,7 @@ class C01(Property):
             'counts, hydrate parts with both separators and leading counts, every default prefix, suffixes, states, primes/stars, charges) rendered '
             'and parsed by formula_to_composition and Substance.from_formula; ordered pairs of adjacent symbols (all 118^2 in the thorough tier, '
             '1500 random ones in the quick tier); whitespace variants; a malformed stream (drop/duplicate/swap characters, stray or missing brackets, '
-            'unknown capitalised tokens, contradictory / repeated charge marks, int()-forms of the charge number (blanks, underscores), slashes, stray separators); direct calls of _get_charge / _get_leading_integer on arbitrary short ASCII strings (every return / raise branch); operation histories (parse / Substance.from_formula(charge=) / Species.from_formula / in-place mutation of returned dicts / parse again) over one or two formulas. A case counts as non-trivial when it is '
+            'unknown capitalised tokens, contradictory / repeated charge marks, int()-forms of the charge number (blanks, underscores), slashes, stray separators); decimal counts with 5-12 decimals close to / far from integers (also as products of group multipliers); formula_to_composition with non-default prefixes / suffixes and Species.from_formula with non-default phases; direct calls of _get_charge / _get_leading_integer on arbitrary short ASCII strings (every return / raise branch); operation histories (parse / Substance.from_formula(charge=) / Species.from_formula / in-place mutation of returned dicts / parse again) over one or two formulas. A case counts as non-trivial when it is '
             'a distinct JSON value whose text has at least two characters.')
     clauses_without_theorem = (
         'model <-> Python: pyparsing engine, str methods, dict order are modelled by hand; the tie is the correspondence check only (all theorems are about the model)',
@@ -486,8 +488,10 @@ class C01(Property):
         'integer counts / products >= 2**53 lose precision in the real code (H9007199254740993 -> 9007199254740992); theorems are exact; harness compares exactly only below 2**53',
         'non-ASCII digits (accepted by \\d and int()) and non-ASCII whitespace inside the charge number: the model rejects them, Python accepts them; excluded from generation',
         'results are fresh objects (no aliasing between two parses, no effect of mutating a returned dict or of Substance(..., charge=q) on later parses): history cases, oracle only',
-        'uniqueness of the string-level denotation Den (that a text has only one reading) is not proved; accepted_value_sound gives the reading the parser used',
-        'the exception class (ParseException vs ValueError) of formula_to_composition is compared as accept/reject only (for direct _get_charge calls it is compared exactly)',
+        'uniqueness of the string-level denotation Den (that a text has only one reading) is not proved; accepted_value_sound gives the reading the parser used; the order of the returned keys for non-rendered texts is checked by correspondence and by the independent Python evaluator only',
+        'the exception class of formula_to_composition is compared exactly with the model (no theorem: the class is the model\'s ErrKind by construction); Substance/Species.from_formula only as accept/reject (they evaluate formula_to_latex first: .alpha-Fe gives ValueError there)',
+        'pyInt (model of int() on the charge number): accepting direction proved (charge_number_forms) + alphabet bound; the full iff is not proved',
+        'non-default prefixes= / suffixes= and Species.from_formula(phases=...): modelled (formulaToCompositionWith) and compared by correspondence + independent evaluator; parse_render is proved for the default lists only',
         '_get_leading_integer line 353 (raise on two matches of ^\\d+) is dead code: no input reaches it; not modelled',
     )
     assumptions = ('pyparsing (ordered choice, whitespace skipping, greedy OneOrMore, parse actions) is modelled as a recursive-descent parser and tied by this correspondence only',
